@@ -431,3 +431,6 @@ _app("C03", "text", " link of ops.py is translated too (py2coq_ops v3; _check_al
      "and edge sets of the model's link_graph and raises TypeError for non-_Node / FrozenModel operands (C03_generated_link_is_model, _not_node, _frozen).")
 _app("C07", "text", " Model._run is re-translated from model.py on every run (tools/vlib/py2coq_mrun.py -> coq/gen/Gen_mrun.v) and proved equal to run_op on the sequence, rows written in step order "
      "(C07_generated_model_run_is_run_steps, C07_generated_model_run_call_is_generated_call); Model.run stays on hand model + correspondence.")
+_app("C06", "text", " Staging on DAGs of any size (coq/proofs/FitSem_dag_proofs.v): the loop is greedy, the stage of a readout equals its offline depth, at most one round per offline node "
+     "(C06_staging_earliest, C06_staging_stage_exact, C06_staging_rounds_bound); validity of the symbolic execution is proved unbounded for chains only and bounded for <= 5 nodes (all fan-in "
+     "orders), 6 nodes (sorted fan-in) and forests <= 7; the general validity statement needs the topological-order hypothesis (its unguarded form is refuted) and stays open.")
